@@ -315,7 +315,12 @@ pub fn run(ctx: &Ctx) -> Report {
     );
     rep.trust("catch_unwind + panic hook observe panics; aborts (stack overflow, allocation failure) would end the run as a machinery error");
     let quick = ctx.quick();
-    let bs = bases(ctx, !quick);
+    let mut bs = bases(ctx, !quick);
+    if quick {
+        // the dynamic layout has its own validation code driven by 340 parameters: include its proof
+        // (native to the blake2s_248 / stone6 build) in the quick tier as well
+        bs.extend(bases(ctx, true).into_iter().filter(|b| b.layout == "dynamic"));
+    }
     for b in &bs {
         let all = devs(&b.value, "");
         let mut jobs: Vec<(Vec<Dev>, Subject)> = Vec::new();
